@@ -56,7 +56,35 @@ class App:
                 import sys
                 start_response("500 Oops", [("X-Second", "2\r\nInjected: 1")], sys.exc_info())
             return [b"ok"]
+        if kind in ("late-excinfo-after-empty-write", "late-excinfo-after-empty-yield", "late-excinfo-after-write"):
+            # the head is already on the wire (flushed by a write, possibly of zero body bytes) when an error path calls
+            # start_response again with exc_info; WSGI: that call must re-raise; the application swallows it and goes on
+            import sys
+            first = b"" if "empty" in kind else b"part"
+
+            def late():
+                try:
+                    raise ValueError("x")
+                except ValueError:
+                    try:
+                        start_response(p["status"], list(p["headers"]), sys.exc_info())
+                    except ValueError:
+                        pass
+            if kind.endswith("yield"):
+                def gen():
+                    start_response("200 OK", [("X-First", "1")])
+                    yield first
+                    late()
+                    yield LATE_PAYLOAD
+                return gen()
+            w = start_response("200 OK", [("X-First", "1")])
+            w(first)
+            late()
+            return [LATE_PAYLOAD]
         raise AssertionError(kind)
+
+
+LATE_PAYLOAD = b"0\r\n\r\nHTTP/1.1 200 OK\r\nContent-Length: 4\r\nX-Forged: 1\r\n\r\nEVIL"
 
 
 def place(base, c, pos):
@@ -124,6 +152,11 @@ def cases():
                 yield "hop", {"kind": "single", "status": "200 OK", "headers": [(variant, val), ("X-Z", "z")]}
     for k in ("twice-plain", "twice-excinfo-before", "twice-excinfo-after"):
         yield "second-call", {"kind": k}
+    for k in ("late-excinfo-after-empty-write", "late-excinfo-after-empty-yield", "late-excinfo-after-write"):
+        for hdrs in ([("Content-Length", "5"), ("X-Second", "2")], [("X-Second", "2")], [("Content-Length", "0")],
+                     [("Transfer-Encoding", "identity"), ("X-Second", "2")], [("Connection", "close"), ("Content-Length", "%d" % len(LATE_PAYLOAD))]):
+            for st in ("500 Oops", "200 OK", "204 No Content", "304 Not Modified"):
+                yield "late-call", {"kind": k, "status": st, "headers": hdrs}
     # the documented websocket exception must not open the door for the other hop-by-hop fields, whatever the order
     for h in HOP:
         for val in ("x", "chunked", "gunicorn/evil"):
@@ -153,6 +186,14 @@ def judge(label, prog, o, ver):
         for line in head.split(b"\r\n"):
             if b"\n" in line or b"\r" in line:
                 return "refused-call-reached-the-wire", "bare CR/LF inside a head line: %r" % line
+        return None
+    if prog["kind"].startswith("late-"):
+        want = (b"" if "empty" in prog["kind"] else b"part") + LATE_PAYLOAD
+        if len(resps) != 1 or problems or not first.complete or first.problems:
+            return "late-start_response-changes-framing", "head already sent, then start_response(%r, %r, exc_info): the connection now reads as %d response(s) %s %s; wire %r" % (
+                prog["status"], prog["headers"], len(resps), problems, first.problems if first else "", wire[:300])
+        if first.code != 200 or first.body != want or first.get(b"x-second"):
+            return "late-start_response-changes-response", "status %s body %r (application wrote %r) X-Second=%r" % (first.code, first.body[:60], want[:20], first.get(b"x-second"))
         return None
     if prog["kind"] != "single":
         # repeated start_response: no line other than server lines and X-First / X-Second, never 'Injected'
